@@ -7,7 +7,7 @@
 //!   stage audit     : recorded histories replayed through the production async constructors
 //!   stage payload   : all (first,last) pairs over U u {MIN,MAX} x replica lists through the production parser
 //!   stage walk      : long seeded walk over full i64 (thorough; sampled)
-use h_drv::tabmodel::{Cfg, Ev, LABEL_A, LABEL_B, LABEL_C, LABEL_X, Obj, Schema, TabModel, split_complaint, uuid_of};
+use h_drv::tabmodel::{Cfg, Ev, LABEL_A, LABEL_B, LABEL_C, LABEL_D, LABEL_X, Obj, Schema, TabModel, split_complaint, uuid_of};
 use scylla::verif::tablets::{PayloadOutcome, World};
 use serde_json::{Value, json};
 use std::time::Duration;
@@ -33,6 +33,7 @@ fn cfg_one(thorough: bool) -> Cfg {
         rsets: rsets(),
         combos: true,
         move_b: true,
+        toggle_d: true,
         audit_mod: if thorough { 40 } else { 30 },
         audit_cap: if thorough { 4000 } else { 400 },
     }
@@ -46,10 +47,12 @@ fn cfg_two(thorough: bool) -> Cfg {
         tables: vec![("t".into(), false), ("v".into(), true)],
         schemas: vec![Schema::AllPresent, Schema::Dropped(0), Schema::Dropped(1), Schema::NotTabletBased],
         // here the never-known uuid is the ONLY replica: a tablet with an empty usable replica list
-        // and a set with TWO uuids that may be unknown, of which only C can ever become known (partial resolution)
-        rsets: vec![vec![(LABEL_A, 0), (LABEL_B, 1)], vec![(LABEL_X, 0)], vec![(LABEL_C, 2), (LABEL_B, 0)], vec![(LABEL_C, 1), (LABEL_X, 3)]],
-        combos: thorough,
-        move_b: true,
+        // and a set with TWO uuids that may each be unknown or known (C and D join / leave independently or in one refresh)
+        rsets: vec![vec![(LABEL_A, 0), (LABEL_B, 1)], vec![(LABEL_X, 0)], vec![(LABEL_C, 2), (LABEL_B, 0)], vec![(LABEL_C, 1), (LABEL_D, 3)]],
+        combos: true,
+        // thorough (3 tokens): B's datacenter move is left to the one-table search to keep the tier within minutes
+        move_b: !thorough,
+        toggle_d: true,
         audit_mod: 50,
         audit_cap: 300,
     }
@@ -242,9 +245,9 @@ fn walk(r: &Report, steps: u64, seed: u64) {
             }
         };
         let ev = if rng.below(40) == 0 {
-            let bits = rng.below(8);
+            let bits = rng.below(16);
             let schema = if rng.below(30) == 0 { Schema::Dropped(0) } else { Schema::AllPresent };
-            Ev::Refresh { toggle_c: bits & 1 != 0, recreate_a: bits & 2 != 0, move_b: bits & 4 != 0, schema }
+            Ev::Refresh { toggle_c: bits & 1 != 0, toggle_d: bits & 8 != 0, recreate_a: bits & 2 != 0, move_b: bits & 4 != 0, schema }
         } else {
             let (x, y) = (pick(&mut rng), pick(&mut rng));
             // keep the map populated: mostly narrow tablets
@@ -365,7 +368,7 @@ fn main() {
         let steps = r.tier().pick(20_000u64, 1_000_000u64);
         walk(&r, steps, r.args.seed);
     }
-    r.set_rule("E-BFS to a fixpoint on the real TabletsInfo/ClusterState (hook H-TABLETS; tablets learnt from payload bytes through the production parser/translator/update_tablets, refreshes through the production topology diff + perform_maintenance). Stage one: one table, token universe quick {MIN+1,-1,0,1,MAX} / thorough {MIN+1,MIN+2,-1,0,1,MAX-1,MAX}; events = learn [a,b] for EVERY a<=b in U x replica sets {known A+B in two DCs; A + never-known X; C+B where C leaves/re-joins} and refresh with EVERY subset of {C joins/leaves, A re-created with a new address, B re-created in another DC} x schema {present, table dropped, (keyspace not tablet-based, keyspace gone)}. Stage two: a table and a materialized view over 3-4 tokens. After EVERY transition: range list sorted+disjoint; stored set = reference alive set replica for replica (node object identity, address, DC); hidden flags sound; every token of U + probes answered exactly as the latest-wins reference (nothing if overlapped/discarded); per-DC lists and DC-restricted lookups = restriction of the full list; equal canonical forms answer identically. distinct_nontrivial = distinct canonical states + accepted payload cases. Walk: seeded random i64 ranges, labelled sampled.");
+    r.set_rule("E-BFS to a fixpoint on the real TabletsInfo/ClusterState (hook H-TABLETS; tablets learnt from payload bytes through the production parser/translator/update_tablets, refreshes through the production topology diff + perform_maintenance). Stage one: one table, token universe quick {MIN+1,-1,0,1,MAX} / thorough {MIN+1,MIN+2,-1,0,1,MAX-1,MAX}; events = learn [a,b] for EVERY a<=b in U x replica sets {known A+B in two DCs; A + never-known X; C+B where C leaves/re-joins} and refresh with EVERY subset of {C leaves/re-joins, D joins/leaves, A re-created with a new address, B re-created in another DC} in one refresh x schema {present, table dropped, (keyspace not tablet-based, keyspace gone)}. Stage two: a table and a materialized view over 3-4 tokens. After EVERY transition: range list sorted+disjoint; stored set = reference alive set replica for replica (node object identity, address, DC); hidden flags sound; every token of U + probes answered exactly as the latest-wins reference (nothing if overlapped/discarded); per-DC lists and DC-restricted lookups = restriction of the full list; equal canonical forms answer identically. distinct_nontrivial = distinct canonical states + accepted payload cases. Walk: seeded random i64 ranges, labelled sampled.");
     r.assume("node identity is observed through (host id, address, datacenter, Arc identity with ClusterState::known_nodes); A's concrete address is canonicalised to 'is the current address' (relabelling)");
     r.assume("BFS drives synchronous twins of ClusterState::new/new_updated (identical private steps minus spawn_blocking); a recorded subset of histories is replayed through the real async constructors and compared state by state (traces_validated_against_impl)");
     r.assume("the long walk over full-range i64 tokens is sampled (seeded) and never what coverage rests on");
